@@ -222,6 +222,7 @@ func cmdCheck(args []string) int {
 	trusted := map[string]bool{}
 	unmodelled := map[string]bool{}
 	assumedRepo := map[string]bool{}
+	var notCovered []string
 	for _, r := range reports {
 		loadS += r.LoadS
 		if r.Error != "" {
@@ -239,6 +240,9 @@ func cmdCheck(args []string) int {
 		}
 		for _, a := range r.Assumed {
 			assumedRepo[a+" (used in unit "+r.Unit+")"] = true
+		}
+		for _, x := range r.Excluded {
+			notCovered = append(notCovered, x+" (unit "+r.Unit+": excluded from the claimed set, residual imprecision of the sweep)")
 		}
 		if !r.FrameCheck {
 			trusted["unit "+r.Unit+": modifies clauses of callees are trusted (frame obligations not generated for this unit)"] = true
@@ -421,7 +425,7 @@ func cmdCheck(args []string) int {
 			"checker_cmd":  fmt.Sprintf("/verif/bin/govc check %s -tier %s", prop, *tier),
 			"trusted_base": tb, "functions": funcsEv, "units": unitNames(mine), "by_backend": solverCount,
 			"solver_time_s": round3(solveS), "load_time_s_sum": round3(loadS),
-			"known_findings_seen": knownSeen, "samples": samples, "unmodelled": unm,
+			"known_findings_seen": knownSeen, "samples": samples, "unmodelled": unm, "not_covered": notCovered,
 			"explanation": "each obligation is a verification condition generated from /repo's current source for a function under contract; discharged = the negated goal is unsat. `obligations` counts the claimed obligations: those generated minus the ones recorded as open known findings (listed under known_findings_seen, each with a witness replayed on the real code in this run); every claimed obligation must be discharged",
 		},
 		"assumptions": append(assumptions, tb...),
